@@ -88,6 +88,9 @@ func genName(r *Rng, pSpecial int) []byte {
 
 // genMap: unique names
 func genPairs(r *Rng, maxPairs int, pNameSpecial, pValSpecial int, unique bool) []Pair {
+	if r.Chance(1, 10) {
+		maxPairs *= 4 // one list in ten is wide: up to 16 pairs (sorting, the splitter's buffer, the last/first edges far apart)
+	}
 	n := r.Intn(maxPairs + 1)
 	var ps []Pair
 	seen := map[string]bool{}
@@ -97,7 +100,7 @@ func genPairs(r *Rng, maxPairs int, pNameSpecial, pValSpecial int, unique bool) 
 			continue
 		}
 		seen[string(k)] = true
-		ps = append(ps, Pair{K: k, V: genStr(r, 6, pValSpecial)})
+		ps = append(ps, Pair{K: k, V: genStr(r, r.PickInt(6, 6, 6, 6, 6, 2, 24), pValSpecial)}) // mostly up to 6 bytes, sometimes up to 24
 	}
 	return ps
 }
@@ -1010,6 +1013,21 @@ func tagSetAPI(set, back tag.Set, m map[string]string, ln string) (v *Violation)
 	if set.String() != ln || !back.Equals(set) || !set.SubsetOf(back) || !back.SubsetOf(set) || set.IsEmpty() != (len(m) == 0) {
 		return &Violation{Class: "tagset-accessors", Detail: fmt.Sprintf("line %s: String/Equals/SubsetOf/IsEmpty of the set and of its re-parse disagree", show([]byte(ln)))}
 	}
+	// SubsetOf: a set without one of the pairs is a subset, one with another value, another name, or the EMPTY value for
+	// a name the set does not have is not
+	if len(m) > 0 {
+		ks := sortedPairs(m)
+		less := map[string]string{}
+		for _, p := range ks[1:] {
+			less[string(p.K)] = string(p.V)
+		}
+		other := map[string]string{string(ks[0].K): string(ks[0].V) + "x"}
+		absent := map[string]string{string(ks[0].K) + "~": ""}
+		sub, oth, abs := rMapToSet(less), rMapToSet(other), rMapToSet(absent)
+		if !sub.SubsetOf(set) || (len(less) < len(m) && set.SubsetOf(sub)) || oth.SubsetOf(set) || abs.SubsetOf(set) || sub.Equals(set) != (len(less) == len(m)) {
+			return &Violation{Class: "tagset-accessors", Detail: fmt.Sprintf("line %s: SubsetOf/Equals against a sub-set, a changed value and an absent name with the empty value", show([]byte(ln)))}
+		}
+	}
 	if utf8.ValidString(ln) {
 		js, err := json.Marshal(&set)
 		var s2 tag.Set
@@ -1038,6 +1056,19 @@ func fieldsAPI(f field.Fields, items [][]byte) (v *Violation) {
 	}
 	if f2, err := field.NewFieldsFromSlice(ss...); err != nil || f2 != f {
 		return &Violation{Class: "fields-constructors", Detail: fmt.Sprintf("NewFieldsFromSlice(%s) differs from the list (err %v)", showItems(items), err)}
+	}
+	// the constructors refuse an item of 256 bytes, name or value (its length does not fit the length byte)
+	long := string(bytes.Repeat([]byte{'L'}, 256))
+	for _, kv := range [][2]string{{"k", long}, {long, "v"}, {long[:255], long}} {
+		if _, err := field.NewFieldsFromSlice("a", "1", kv[0], kv[1]); err == nil {
+			return &Violation{Class: "fields-constructors", Detail: fmt.Sprintf("NewFieldsFromSlice accepts an item of 256 bytes (name %d bytes, value %d bytes)", len(kv[0]), len(kv[1]))}
+		}
+		if _, err := field.NewFields(map[string]string{kv[0]: kv[1]}); err == nil {
+			return &Violation{Class: "fields-constructors", Detail: fmt.Sprintf("NewFields accepts an item of 256 bytes (name %d bytes, value %d bytes)", len(kv[0]), len(kv[1]))}
+		}
+	}
+	if f255, err := field.NewFieldsFromSlice(long[:255], long[:255]); err != nil || len(f255) != 512 {
+		return &Violation{Class: "fields-constructors", Detail: fmt.Sprintf("NewFieldsFromSlice refuses items of 255 bytes: %v", err)}
 	}
 	if f.IsEmpty() != (len(items) == 0) {
 		return &Violation{Class: "fields-accessors", Detail: "IsEmpty: " + showItems(items)}
@@ -1688,6 +1719,91 @@ func pairsOf(m map[string]string, r *Rng) []Pair {
 
 func str(s string) []byte { return []byte(s) }
 
+// edgeCorpus: the systematic part of the fixed corpus (runs first on every check). Every byte the printers and parsers
+// treat specially, at every position of a string (alone, first, middle, last), in every role (tag value that is / is
+// not the last of its line; field name that is / is not the first; field value that is / is not the last); the lengths
+// around the 255-byte limit of a field item, raw, quoted and with blanks to trim; length bytes at 127/128; tag sets and
+// field lists with more pieces than the splitter's initial buffer (40); names in orders that a sort has to repair
+// (reverse, prefixes of each other, upper before lower case, non-ASCII); brace nesting to depth 3.
+func edgeCorpus() []Replay {
+	var out []Replay
+	enc := func(items ...string) []byte {
+		var bs [][]byte
+		for _, s := range items {
+			bs = append(bs, []byte(s))
+		}
+		return encodeFields(bs)
+	}
+	P := func(kv ...string) []Pair {
+		var ps []Pair
+		for i := 0; i+1 < len(kv); i += 2 {
+			ps = append(ps, Pair{K: []byte(kv[i]), V: []byte(kv[i+1])})
+		}
+		return ps
+	}
+	for _, c := range []byte{'"', '`', ' ', '{', '}', ',', '=', '\\', '\n', 0, 0xff} {
+		ch := string([]byte{c})
+		for _, v := range []string{ch, ch + "x", "x" + ch + "y", "x" + ch, ch + ch} {
+			out = append(out,
+				Replay{Kind: "line", Pairs: P("a", v)},                   // the last (only) value of a line
+				Replay{Kind: "line", Pairs: P("a", v, "b", "1")},         // not the last
+				Replay{Kind: "line", Pairs: P("a", "1", "b", v, "c", v)}, // in the middle and last
+				Replay{Kind: "fprint", S: enc(v, "1")},                   // the first (only) name
+				Replay{Kind: "fprint", S: enc("n", "1", v, "2")},         // a later name
+				Replay{Kind: "fprint", S: enc("n", v)},                   // the last value
+				Replay{Kind: "fprint", S: enc("n", v, "m", "2")},         // not the last
+				Replay{Kind: "vars", Pairs: P("a", v), S: enc("n", v)},   // both printers in one text
+			)
+		}
+	}
+	// the 255-byte limit of a field item and the length byte
+	rep := func(c byte, n int) string { return string(bytes.Repeat([]byte{c}, n)) }
+	for _, n := range []int{0, 1, 127, 128, 254, 255} {
+		out = append(out,
+			Replay{Kind: "fprint", S: enc(rep('n', n), rep('v', n))},
+			Replay{Kind: "fprint", S: enc("k", rep(',', n))}, // a value that is quoted whatever its length
+		)
+	}
+	for _, n := range []int{254, 255, 256} {
+		out = append(out,
+			Replay{Kind: "fparse", S: []byte("a=" + rep('v', n))},
+			Replay{Kind: "fparse", S: []byte(rep('n', n) + "=1")},
+			Replay{Kind: "fparse", S: []byte("a=  " + rep('v', n) + "  ")}, // blanks are trimmed before the limit applies
+			Replay{Kind: "fparse", S: []byte("a=\"" + rep('v', n) + "\"")}, // the quotes do not count
+			Replay{Kind: "fparse", S: []byte("\"" + rep('n', n) + "\"=`" + rep('v', n) + "`")},
+			Replay{Kind: "fparse", S: []byte("a=\"" + strings.Repeat("\\\"", n) + "\"")}, // 2n bytes of escapes for n bytes
+			Replay{Kind: "prov", Pairs: P("a", rep('v', n))},
+			Replay{Kind: "prov", Pairs: P(rep('n', n), "1")},
+			Replay{Kind: "vars", Pairs: P("a", rep('v', n)), S: enc("f", rep('w', n-1))},
+		)
+	}
+	// more pieces than the initial buffer of the splitter, names in hostile orders
+	var many, rev []string
+	for i := 0; i < 45; i++ {
+		many = append(many, fmt.Sprintf("k%02d", i), fmt.Sprintf("v%d", i))
+		rev = append(rev, fmt.Sprintf("k%02d", 44-i), fmt.Sprintf("v,%d", i))
+	}
+	var txt []string
+	for i := 0; i+1 < len(rev); i += 2 {
+		txt = append(txt, rev[i]+"="+strconv.Quote(rev[i+1]))
+	}
+	out = append(out,
+		Replay{Kind: "line", Pairs: P(many...)}, Replay{Kind: "line", Pairs: P(rev...)},
+		Replay{Kind: "parse", S: []byte("{ " + strings.Join(txt, " , ") + " }")},
+		Replay{Kind: "fparse", S: []byte(strings.Join(txt, ","))},
+		Replay{Kind: "fprint", S: enc(many...)}, Replay{Kind: "fprint", S: enc(rev...)},
+		Replay{Kind: "prov", Pairs: P(rev...)},
+		Replay{Kind: "line", Pairs: P("b", "1", "ab", "2", "a", "3", "a b", "4", "B", "5", "A", "6", "aé", "7", "a\xff", "8", "~", "9", "_", "0", "a.", "x", "a-", "y")},
+		Replay{Kind: "parse", S: []byte("~=9,b=1,ab=2,a=3,B=5,A=6,a.=x,a-=y,_=0")},
+		Replay{Kind: "parse", S: []byte("{{{a=1}}}")}, Replay{Kind: "parse", S: []byte(" { { {a=1} } } ")}, Replay{Kind: "parse", S: []byte("{{{a=1}}")},
+		Replay{Kind: "parse", S: []byte("{{a=1}}}")}, Replay{Kind: "parse", S: []byte("{}")}, Replay{Kind: "parse", S: []byte("{ }")}, Replay{Kind: "parse", S: []byte("{a}")},
+		Replay{Kind: "parse", S: []byte("a='x,y'")}, Replay{Kind: "parse", S: []byte("a=\"x\"y")}, Replay{Kind: "parse", S: []byte("a=`x`y")}, Replay{Kind: "parse", S: []byte("a=\"\"\"\"")},
+		Replay{Kind: "fparse", S: []byte("{{a=1}}")}, Replay{Kind: "fparse", S: []byte("{}")}, Replay{Kind: "fparse", S: []byte("a")}, Replay{Kind: "fparse", S: []byte("a=1,b")},
+		Replay{Kind: "fparse", S: []byte("a=1,,b=2")}, Replay{Kind: "fparse", S: []byte("=1")}, Replay{Kind: "fparse", S: []byte(" =1")}, Replay{Kind: "fparse", S: []byte("\"\"=1")},
+	)
+	return out
+}
+
 // corpus: the witnesses of the _refuted theorems and of the recorded findings, replayed on the real code first
 func corpus() []Replay {
 	P := func(kv ...string) []Pair {
@@ -1817,6 +1933,7 @@ func main() {
 		}
 		var jobs []Replay
 		jobs = append(jobs, corpus()...)
+		jobs = append(jobs, edgeCorpus()...)
 		r := c.Rng
 		// exhaustive small scope: every string of length <= 3 (thorough: 4) over 9 symbols through tag.Parse
 		maxLen := 3
